@@ -284,6 +284,78 @@ def r10_6(chk):
     chk.floor("R10.6", 6)
 
 
+def r10_7(chk):
+    """Shadow and terminator geometry: every named intermediate of LightListener.__call__ / TerminatorListener.__call__
+    equals its conical-shadow expression (term algebra: algebraic rearrangements are accepted, changed formulas are not),
+    and the branch structure is the documented one."""
+    from .. import terms as T
+    from ..terms import Extract, Poly, Unsupported
+    repo = chk.repo
+    f = repo.cls(LIS, "LightListener").methods["__call__"]
+    Rs, Rb, ds, dsat = Poly.atom("sun.r"), Poly.atom("orb.frame.center.body.r"), Poly.atom("norm_x_sun"), Poly.atom("norm_x_sat")
+    zeta, au, ap, sh, sv = Poly.atom("zeta"), Poly.atom("alpha_umb"), Poly.atom("alpha_pen"), Poly.atom("sat_horiz"), Poly.atom("sat_vert")
+    want = {
+        "alpha_umb": T.func("arcsin", (Rs - Rb) / ds),
+        "alpha_pen": T.func("arcsin", (Rs - Rb) / ds),
+        "sat_horiz": dsat * T.trig("cos", zeta),
+        "sat_vert": dsat * T.trig("sin", zeta),
+        "x": Rb / T.trig("sin", ap),
+        "pen_vert": T.func("tan", ap) * (Poly.atom("x") + sh),
+        "y": Rb / T.trig("sin", au),
+        "umb_vert": T.func("tan", au) * (Poly.atom("y") - sh),
+    }
+    found = {}
+    for n in ast.walk(f.node):
+        if isinstance(n, ast.Assign) and isinstance(n.targets[0], ast.Name) and n.targets[0].id in want:
+            found[n.targets[0].id] = n
+    for name, w in want.items():
+        n = found.get(name)
+        if n is None:
+            chk.inst("R10.7", f"{f.ref}::{name}", False, "intermediate not found", loc(f, f.node))
+            continue
+        try:
+            got = Extract().ev(n.value)
+            ok = T.equal(got, w)
+            msg = "conical-shadow geometry" if ok else f"{name} = {T.fmt(got)}, expected {T.fmt(w)}"
+        except Unsupported as e:
+            ok, msg = False, f"not extractable: {e}"
+        chk.obl("R10.7", f"{f.ref}::{name}", ok, msg, loc(f, n))
+    t = unparse(f.node)
+    frags = [("anti-sun-side", "if x_sun @ x_sat < 0:", "shadow only on the anti-Sun side (r_sun · r_sat < 0)"),
+             ("zeta", "zeta = np.arccos(-x_sun @ x_sat / (norm_x_sun * norm_x_sat))", "angle from the anti-Sun axis"),
+             ("inside-penumbra", "if sat_vert <= pen_vert:", "inside the penumbra cone"),
+             ("inside-umbra", "if sat_vert <= umb_vert:", "inside the umbra cone"),
+             ("penumbra-type", "if self.type == self.PENUMBRA:", "penumbra listener reports the penumbra cone, umbra listener the umbra cone"),
+             ("same-frame", "orb = orb.copy(form='cartesian', frame=sun_orb.frame)", "satellite and Sun compared in one frame"),
+             ("sun-at-date", "sun_orb = sun.propagate(orb.date).copy(frame=self.frame)", "Sun taken at the sample's date"),
+             ("lit-default", "return 1", "lit unless inside a cone")]
+    for key, frag, what in frags:
+        ok = frag in t
+        chk.inst("R10.7", f"{f.ref}::{key}", ok, what if ok else f"`{frag}` not found", loc(f, f.node))
+    ok = t.count("return -1") == 2
+    chk.inst("R10.7", f"{f.ref}::shadow-values", ok, "−1 inside the selected cone", loc(f, f.node), nontrivial=False)
+    info = repo.cls(LIS, "LightListener").methods["info"]
+    ti = unparse(info.node)
+    ok = "'Umbra entry' if self(orb) <= 0 else 'Umbra exit'" in ti and "'Penumbra entry' if self(orb) <= 0 else 'Penumbra exit'" in ti
+    chk.inst("R10.7", f"{info.ref}::labels", ok, "entry when the state just after the crossing is in shadow" if ok else "labels changed", loc(info, info.node))
+    # Terminator
+    g = repo.cls(LIS, "TerminatorListener").methods["__call__"]
+    tg = unparse(g.node)
+    ok = "sun_pos = self.sun.propagate(orb.date).copy(frame=orb.frame, form='cartesian')[:3]" in tg and "sat_pos = orb.copy(form='cartesian')[:3]" in tg \
+        and "return sat_pos @ sun_pos / (sun_norm * sat_norm)" in tg
+    chk.inst("R10.7", f"{g.ref}", ok, "cosine of the Sun–satellite angle: zero at the terminator" if ok else "changed", loc(g, g.node))
+    gi = repo.cls(LIS, "TerminatorListener").methods["info"]
+    ok = "if orb2.r_dot > 0:\n        msg = 'Night Terminator'\n    else:\n        msg = 'Day Terminator'" in unparse(gi.node)
+    chk.inst("R10.7", f"{gi.ref}", ok, "moving away from the Sun → night terminator" if ok else "changed", loc(gi, gi.node))
+    an = repo.cls(LIS, "AnomalyListener")
+    ok = "return abs(self._diff(orb)) < 2 and super().check(orb)" in unparse(an.methods["check"].node)
+    chk.inst("R10.7", f"{an.ref}.check", ok, "the wrap discontinuity at ±π is not an event (|diff| < 2)" if ok else "changed", loc(an.methods["check"], an.methods["check"].node))
+    tab = an.attrs.get("ANOMALIES")
+    ok = tab is not None and unparse(tab).replace(" ", "") == "{'true':('keplerian','ν'),'mean':('keplerian_mean','M'),'eccentric':('keplerian_eccentric','E'),'aol':('keplerian_circular','u')}"
+    chk.inst("R10.7", f"{an.ref}.ANOMALIES", ok, "anomaly → (form, element)" if ok else "table changed", loc(an.module, an.node))
+    chk.floor("R10.7", 22)
+
+
 def run(chk):
     chk.rule("R10.1", "listeners cleared before the first listen of every iteration")
     chk.rule("R10.2", "listen(): check, bisect(prev, orb), remember; events sorted and yielded before the sample")
@@ -297,4 +369,6 @@ def run(chk):
     chk.guard(r10_4, chk)
     chk.guard(r10_5, chk)
     chk.guard(r10_6, chk)
+    chk.rule("R10.7", "shadow / terminator / anomaly geometry: named intermediates equal their expressions; branch structure")
+    chk.guard(r10_7, chk)
     chk.assume("watched quantities are continuous between samples (detection is complete w.r.t. sampling only)")
